@@ -89,10 +89,78 @@ def top_alternatives(pattern, flags):
     return [items], tree.state.flags | flags
 
 
+def _loop_regex(repo, mod, de):
+    for st in model.walk_shallow(de.node):
+        if isinstance(st, ast.For) and isinstance(
+                st.iter, ast.Call) and isinstance(
+                st.iter.func, ast.Attribute) and \
+                st.iter.func.attr == 'finditer' and isinstance(
+                    st.iter.func.value, ast.Name):
+            rc = regex_constant(repo, mod, st.iter.func.value.id)
+            if rc is not None:
+                return rc
+    raise AnalysisError('decode_escapes: no module-level escape regex')
+
+
+def _per_escape_loop(repo, mod, de, rep):
+    """The other spelling of one pass over the literal: `for m in
+    <ESCAPE_RE>.finditer(s)` collecting s[pos:m.start()], the decoding of
+    m.group(0) and, after the loop, s[pos:].  Recognised (and its two
+    obligations recorded) only when the unicode-escape codec is applied to
+    the text of the loop's match and to nothing else."""
+    param = de.params()[0]
+    loops = [st for st in model.walk_shallow(de.node)
+             if isinstance(st, ast.For) and isinstance(
+                 st.iter, ast.Call) and isinstance(
+                 st.iter.func, ast.Attribute) and
+             st.iter.func.attr == 'finditer' and isinstance(
+                 st.iter.func.value, ast.Name) and regex_constant(
+                 repo, mod, st.iter.func.value.id) is not None and
+             len(st.iter.args) == 1 and isinstance(
+                 st.iter.args[0], ast.Name) and
+             st.iter.args[0].id == param and isinstance(
+                 st.target, ast.Name)]
+    if len(loops) != 1:
+        return False
+    m = loops[0].target.id
+    ok_dec, whole = False, False
+    for c in model.calls_in(de.node):
+        d = repo.resolve(mod, c.func, model.scope_locals(de))
+        if d in ('codecs.decode',) or (isinstance(
+                c.func, ast.Attribute) and c.func.attr == 'decode'):
+            arg = c.args[0] if c.args else None
+            if arg is not None and model.norm(arg) in (
+                    '%s.group(0)' % m, '%s.group()' % m, '%s[0]' % m) and \
+                    model.enclosing(c, ast.For) is loops[0]:
+                ok_dec = True
+            else:
+                whole = True
+    # the text between the matches is taken from the caller's text
+    between = [x for x in ast.walk(de.node) if isinstance(
+        x, ast.Subscript) and isinstance(x.value, ast.Name) and
+        x.value.id == param and isinstance(x.slice, ast.Slice)]
+    single = len(between) >= 2 and not any(
+        isinstance(st, (ast.While,)) for st in model.walk_shallow(de.node))
+    rep.ob('R16a', de.key + '/per-escape-substitution', single,
+           'decode_escapes walks <ESCAPE_RE>.finditer(s) once; the text '
+           'between and after the matches must be taken from s itself',
+           loc=mod.loc(de.node))
+    rep.ob('R16a', de.key + '/decodes-only-the-match', ok_dec and not whole,
+           'the unicode-escape codec must be applied to exactly the text of '
+           'one matched escape (match.group(0)); decoding any larger piece '
+           'of the string corrupts every non-ASCII character in it',
+           loc=mod.loc(de.node))
+    return True
+
+
 def check_escapes(repo, rep):
     mod = repo.module(LEX)
     de, subs = escape_substitutions(repo)
-    if not subs:
+    if not subs and _per_escape_loop(repo, mod, de, rep):
+        subs = None
+    if subs is None:
+        pat, flags, node = _loop_regex(repo, mod, de)
+    elif not subs:
         rep.ob('R16a', de.key + '/per-escape-substitution', False,
                'decode_escapes no longer rewrites the literal with '
                '<ESCAPE_RE>.sub(<callback>, s): escapes must be decoded one '
@@ -100,71 +168,72 @@ def check_escapes(repo, rep):
                'literal corrupts every non-ASCII character and re-reads '
                'decoded text', loc=mod.loc(de.node))
         return
-    pat, flags, node = escape_regex(repo)
-    # R16a: decode per matched escape, in ONE pass over the caller's text
-    param = de.params()[0]
-    g = cfgmod.CFG(de.node)
-    single = len(subs) == 1
-    why = 'found %d substitution passes' % len(subs)
-    cb = None
-    if single:
-        c, rname, rc = subs[0]
-        text = c.args[1]
-        use = g.node_of(c)
-        ok_text = isinstance(text, ast.Name) and text.id == param and all(
-            d is g.entry for d in cfgmod.reaching_defs(g, use, param))
-        if not ok_text:
-            single = False
-            why = 'the substitution runs over %s, not over the literal ' \
-                  'text itself' % model.norm(text)
-        if isinstance(c.args[0], ast.Name):
-            # the callback: a nested def or a module-level function
-            cb = mod.functions.get(de.qualname + '.' + c.args[0].id) or \
-                mod.functions.get(c.args[0].id)
-        # what is returned: the substitution result, or the text unchanged
-        for r in [x for x in model.walk_shallow(de.node)
-                  if isinstance(x, ast.Return)]:
-            v = r.value
-            if v is c or (isinstance(v, ast.Name) and v.id == param and all(
-                    d is g.entry for d in cfgmod.reaching_defs(
-                        g, g.node_of(r), param))):
-                continue
-            if isinstance(v, ast.Name):
-                defs = cfgmod.reaching_defs(g, g.node_of(r), v.id)
-                if defs and all(isinstance(d.ast, ast.Assign) and
-                                d.ast.value is c for d in defs):
+    if subs is not None:
+        pat, flags, node = escape_regex(repo)
+        # R16a: decode per matched escape, in ONE pass over the caller's text
+        param = de.params()[0]
+        g = cfgmod.CFG(de.node)
+        single = len(subs) == 1
+        why = 'found %d substitution passes' % len(subs)
+        cb = None
+        if single:
+            c, rname, rc = subs[0]
+            text = c.args[1]
+            use = g.node_of(c)
+            ok_text = isinstance(text, ast.Name) and text.id == param and all(
+                d is g.entry for d in cfgmod.reaching_defs(g, use, param))
+            if not ok_text:
+                single = False
+                why = 'the substitution runs over %s, not over the literal ' \
+                      'text itself' % model.norm(text)
+            if isinstance(c.args[0], ast.Name):
+                # the callback: a nested def or a module-level function
+                cb = mod.functions.get(de.qualname + '.' + c.args[0].id) or \
+                    mod.functions.get(c.args[0].id)
+            # what is returned: the substitution result, or the text unchanged
+            for r in [x for x in model.walk_shallow(de.node)
+                      if isinstance(x, ast.Return)]:
+                v = r.value
+                if v is c or (isinstance(v, ast.Name) and v.id == param and all(
+                        d is g.entry for d in cfgmod.reaching_defs(
+                            g, g.node_of(r), param))):
                     continue
-            single = False
-            why = 'returns %s, which is not the result of the single ' \
-                  'substitution pass' % model.norm(v)
-    rep.ob('R16a', de.key + '/per-escape-substitution', single,
-           'decode_escapes must rewrite the literal with exactly one '
-           '<ESCAPE_RE>.sub(<callback>, s) pass over the literal text: only '
-           'matched escape sequences may be decoded, every other character '
-           'stands for itself, and the output of one decoding step must '
-           'never be scanned for escapes again (%s)' % why,
-           loc=mod.loc(de.node))
-    ok_dec = False
-    whole = False
-    scope = [cb] if cb is not None else []
-    for f in scope + [de]:
-        for c in model.calls_in(f.node, shallow=True):
-            d = repo.resolve(mod, c.func, model.scope_locals(f))
-            if d in ('codecs.decode',) or (isinstance(
-                    c.func, ast.Attribute) and c.func.attr == 'decode'):
-                arg = c.args[0] if c.args else None
-                if f is cb and arg is not None and model.norm(arg) in (
-                        '%s.group(0)' % cb.params()[0],
-                        '%s.group()' % cb.params()[0],
-                        '%s[0]' % cb.params()[0]):
-                    ok_dec = True
-                else:
-                    whole = True
-    rep.ob('R16a', de.key + '/decodes-only-the-match', ok_dec and not whole,
-           'the unicode-escape codec must be applied to exactly the text of '
-           'one matched escape (match.group(0)); decoding any larger piece '
-           'of the string corrupts every non-ASCII character in it',
-           loc=mod.loc(de.node))
+                if isinstance(v, ast.Name):
+                    defs = cfgmod.reaching_defs(g, g.node_of(r), v.id)
+                    if defs and all(isinstance(d.ast, ast.Assign) and
+                                    d.ast.value is c for d in defs):
+                        continue
+                single = False
+                why = 'returns %s, which is not the result of the single ' \
+                      'substitution pass' % model.norm(v)
+        rep.ob('R16a', de.key + '/per-escape-substitution', single,
+               'decode_escapes must rewrite the literal with exactly one '
+               '<ESCAPE_RE>.sub(<callback>, s) pass over the literal text: only '
+               'matched escape sequences may be decoded, every other character '
+               'stands for itself, and the output of one decoding step must '
+               'never be scanned for escapes again (%s)' % why,
+               loc=mod.loc(de.node))
+        ok_dec = False
+        whole = False
+        scope = [cb] if cb is not None else []
+        for f in scope + [de]:
+            for c in model.calls_in(f.node, shallow=True):
+                d = repo.resolve(mod, c.func, model.scope_locals(f))
+                if d in ('codecs.decode',) or (isinstance(
+                        c.func, ast.Attribute) and c.func.attr == 'decode'):
+                    arg = c.args[0] if c.args else None
+                    if f is cb and arg is not None and model.norm(arg) in (
+                            '%s.group(0)' % cb.params()[0],
+                            '%s.group()' % cb.params()[0],
+                            '%s[0]' % cb.params()[0]):
+                        ok_dec = True
+                    else:
+                        whole = True
+        rep.ob('R16a', de.key + '/decodes-only-the-match', ok_dec and not whole,
+               'the unicode-escape codec must be applied to exactly the text of '
+               'one matched escape (match.group(0)); decoding any larger piece '
+               'of the string corrupts every non-ASCII character in it',
+               loc=mod.loc(de.node))
     # R16b: the alternatives cover the documented escapes, in an order in
     # which no earlier alternative cuts a later one short
     alts, f = top_alternatives(pat, flags)
